@@ -36,8 +36,12 @@ def cases(tier, seed, shard, nshards, rng):
                                           "epilogue": [rng.randrange(nkeys + 1) for _ in range(rng.randint(3, 6))]}}
         elif kind == "cached_property":
             yield {"kind": "cached_property",
-                   "c12": {"kind": "conc", "mode": "rr", "lock": True, "awaiters": [rng.choice(["direct", "stored"]) for _ in range(rng.choice([1, 2, 3]))],
-                           "repeat": rng.choice([1, 2]), "susp": rng.choice([1, 2]), "fail": [], "deleter": None,
+                   "c12": {"kind": "conc", "mode": "rr", "lock": rng.random() < 0.6, "awaiters": [rng.choice(["direct", "stored"]) for _ in range(rng.choice([1, 2, 3]))],
+                           "repeat": rng.choice([1, 2]), "susp": rng.choice([1, 2]), "fail": [],
+                           # the entry of the instance may change while the cancelled computation is suspended:
+                           # a deleting task, a sibling await that finishes first, a sibling that is cancelled too
+                           "deleter": rng.choice([None, None, 0, 1, 2]),
+                           "cancel_both": rng.random() < 0.5,
                            "cancel_task": 0, "runs": 1, "seed": 0}}
         elif kind == "exitstack":
             m = rng.randint(1, 4)
@@ -186,18 +190,29 @@ def run_lru(case, stats):
 
 def run_cached_property(case, stats):
     c12 = case["c12"]
-    _, info = C12.execute(c12, rr_strategy())
+    v0, info = C12.execute(c12, rr_strategy())
     n = info["suspensions"][0]
     viols, sigs = [], []
+    for key, msg in v0:  # the run nothing is thrown into: where the cancellation points are counted
+        viols.append({"key": key, "msg": f"cached_property {c12} without cancellation: {msg}"[:1200]})
+    seconds = [None]
+    if c12.get("cancel_both") and len(c12["awaiters"]) > 1:
+        seconds += [[1, j] for j in range(1, info["suspensions"][1] + 1)]
+    evals = 0
     for i in range(1, n + 1):
-        v, inf = C12.execute(c12, rr_strategy(), cancel_at=i)
-        stats["special_cached_property_cancellations"] += 1
-        sigs.append(("cp", str(c12), i))
-        if not inf.get("cancelled"):
-            viols.append({"key": "cached_property/cancel-not-propagated", "msg": f"cached_property {c12} cancel@{i}"})
-        for key, msg in v:
-            viols.append({"key": key, "msg": f"cached_property {c12} cancel@{i}: {msg}"[:1200]})
-    return {"violations": viols, "evals": max(1, n), "sigs": sigs}
+        for second in seconds:
+            cx = dict(c12, cancel2=second) if second else c12
+            v, inf = C12.execute(cx, rr_strategy(), cancel_at=i)
+            evals += 1
+            stats["special_cached_property_cancellations"] += 1
+            if second:
+                stats["special_cached_property_two_awaiters_cancelled"] += 1
+            sigs.append(("cp", str(c12), i, str(second)))
+            if not inf.get("cancelled"):
+                viols.append({"key": "cached_property/cancel-not-propagated", "msg": f"cached_property {cx} cancel@{i}"})
+            for key, msg in v:
+                viols.append({"key": key, "msg": f"cached_property {cx} cancel@{i}: {msg}"[:1200]})
+    return {"violations": viols, "evals": max(1, evals), "sigs": sigs}
 
 
 def run_exitstack(case, stats):
